@@ -50,6 +50,7 @@ def run_lithium(data, verdicts, options=(), timeout=120, filename="t.txt"):
         path = os.path.join(work, filename)
         with open(path, "wb") as f:
             f.write(data)
+        os.mkdir(os.path.join(work, "td"))      # for runs that pass --tempdir td
         env = dict(os.environ, PYTHONPATH=src, PYTHONHASHSEED="0")
         p = subprocess.run(["timeout", "-s", "KILL", str(timeout), sys.executable, "-m", "lithium"]
                            + list(options) + ["scripted.py", path],
